@@ -44,14 +44,14 @@ CHECKS = {
         technique="contract-based deductive verification: verbatim extraction + Kani contract harnesses (CBMC), full input domains",
     ),
     "C06": dict(
-        category="proof",
+        category="other",
         text="Contracts on the two mechanisms that keep earlier definitions meaningful: SymbolMap::add/roll_back (compiler/map.rs: a live "
              "binding's slot is never handed out, redefinition takes a new slot and queues the old one) and the global-slot recycler's bytecode "
              "scan (visit_closure: for EVERY opcode x EVERY 24-bit payload x JIT-trampolined or not, an instruction that uses a global index keeps "
              "that slot out of the free list). The opcode list is cross-checked against VmCore::vm each run. Map sequences are bounded.",
         design_ref="DESIGN.md section 3, C06",
         note="hashbrown replaced by exact finite-map models; visitor completeness over the other value kinds, JIT-embedded indices, "
-             "engine-level trigger/rollback call sites not covered; two open roll_back findings.",
+             "engine-level trigger/rollback call sites not covered; two open roll_back findings. Level `other`: the single-instruction scan obligation is a complete proof, the map/recycle sequences are bounded.",
         technique="contract-based deductive verification: verbatim extraction + Kani contract harnesses (CBMC); single-instruction obligation is a full-domain proof",
     ),
     "C04": dict(
